@@ -47,12 +47,42 @@ struct Gen {
       default: v = r.range(lo, hi); break;
     }
     if (v < 0) return r.chance(0.5) ? "" : "0";  // a negative literal cannot be written; drop the field
-    char b[32];
+    char b[64];
+    if (r.chance(0.04)) {
+      // a legal value spelled with many characters: zero padding up to and beyond the width of any integer type
+      static const int kW[] = {4, 9, 10, 11, 12, 18, 19, 20, 21, 25, 40};
+      snprintf(b, sizeof b, "%0*ld", kW[r.range(0, 10)], v);
+      return b;
+    }
+    if (r.chance(0.04)) {
+      // values that are special to fixed-width arithmetic: a legal value plus a multiple of 2^31, 2^32 or 2^64, the
+      // limits of int and long and their neighbours, and those followed by one more digit
+      static const char* const kBig[] = {"2147483647", "2147483648", "2147483649", "4294967295", "4294967296",
+                                         "9223372036854775807", "9223372036854775808", "18446744073709551615",
+                                         "18446744073709551616", "214748364", "429496729", "99999999999999999999"};
+      switch (r.range(0, 3)) {
+        case 0: return kBig[r.range(0, 11)];
+        case 1: return std::string(kBig[r.range(0, 11)]) + static_cast<char>('0' + r.range(0, 9));
+        case 2: {
+          unsigned __int128 w = static_cast<unsigned __int128>(v) +
+                                (static_cast<unsigned __int128>(r.range(1, 3)) << (r.chance(0.5) ? 32 : r.chance(0.5) ? 31 : 64));
+          std::string d;
+          while (w) {
+            d.insert(d.begin(), static_cast<char>('0' + static_cast<int>(w % 10)));
+            w /= 10;
+          }
+          return d;
+        }
+        default: {
+          snprintf(b, sizeof b, "%ld%ld", 214748364L + r.range(0, 1), r.range(0, 99));
+          return b;
+        }
+      }
+    }
     if (r.chance(0.1))
       snprintf(b, sizeof b, "%03ld", v);
     else
       snprintf(b, sizeof b, "%ld", v);
-    if (r.chance(0.01)) return "99999999999999999999";
     return b;
   }
   std::string offset(long hmax) {
